@@ -82,7 +82,26 @@ impl<Read: ReadHalf> ReadConnection<Read> {
         enum ReplyMsg<ReplyParams, ReplyError> {
             Varlink(varlink_service::Error),
             Error(ReplyError),
-            Reply(Reply<ReplyParams>),
+            Reply(Success<ReplyParams>),
+        }
+
+        // A success reply: like `Reply` but a message that carries an `error` member (one that
+        // neither the service errors nor `ReplyError` recognised) is never a success.
+        #[derive(Debug, Deserialize)]
+        struct Success<ReplyParams> {
+            parameters: Option<ReplyParams>,
+            continues: Option<bool>,
+            #[serde(default, rename = "error", deserialize_with = "refuse_error_member")]
+            _error: (),
+        }
+
+        fn refuse_error_member<'de, D>(_: D) -> core::result::Result<(), D::Error>
+        where
+            D: serde::Deserializer<'de>,
+        {
+            Err(serde::de::Error::custom(
+                "reply carries an `error` member that is not a known error",
+            ))
         }
 
         match self
@@ -92,9 +111,16 @@ impl<Read: ReadHalf> ReadConnection<Read> {
             // Varlink service interface error need to be returned as the top-level error.
             ReplyMsg::Varlink(e) => Err(crate::Error::VarlinkService(e)),
             ReplyMsg::Error(e) => Ok(Err(e)),
-            ReplyMsg::Reply(reply) => {
+            ReplyMsg::Reply(Success {
+                parameters,
+                continues,
+                ..
+            }) => {
                 // It's a success response.
-                Ok(Ok(reply))
+                Ok(Ok(Reply {
+                    parameters,
+                    continues,
+                }))
             }
         }
     }
